@@ -21,7 +21,7 @@ RULE = ("abstract pom.xml trees (0-12 <dependency> elements whose groupId/artifa
         "notation, empty block, two blocks, value split by a comment, pom declaring a non-UTF-8 encoding, used "
         "double-quoted dependency); "
         "non-trivial = at least one declared dependency; distinct = distinct input")
-TRUSTED_BASE = ["not modelled: encoding/xml's tokenizer (except its refusal of XML declarations other than 1.0 / UTF-8) and the antlr Groovy/Java parsers -- the model starts from the "
+TRUSTED_BASE = ["not modelled: encoding/xml's tokenizer (except its refusal of XML declarations whose version is not 1.0 or whose charset label the installed charset reader does not know; the labels listed in Model/Deps.v ascii_charsets were probed against golang.org/x/net/html/charset) and the antlr Groovy/Java parsers -- the model starts from the "
                 "abstract tree / statement list that tools/props/C19.py renders to text (the renderers are trusted glue)",
                 "modelled, not verified: strings.TrimSpace / ReplaceAll / Split / Contains on ASCII input, the "
                 "parse-tree shapes the Groovy listener asserts on (established per statement kind by execution)"]
@@ -422,7 +422,9 @@ def family(rng, kind):
         if kind == "pom_encoding":
             doc, _ = gen_pom(rng, ndeps=rng.randint(1, 5), deps_shape="normal")
             doc = [x for x in doc if x[0] != "X"]
-            enc = rng.choice(["ISO-8859-1", "iso-8859-1", "ISO-8859-15", "windows-1252", "US-ASCII", "latin1"])
+            enc = rng.choice(["ISO-8859-1", "iso-8859-1", "ISO-8859-15", "windows-1252", "US-ASCII", "latin1", "GBK", "Shift_JIS",
+                              "koi8-r"])      # (a label no charset reader knows is not a readable pom: outside the quantifier, not generated;
+                                              #  Properties/C19.v C19_maven_encoding_repaired states where the model stops)
             return ["maven", [X("1.0", enc)] + doc]
         if kind == "pom_whitespace_cdata":
             deps = []
